@@ -104,3 +104,39 @@ Proof. repeat split; vm_compute; reflexivity. Qed.
 
 Example nv_decodes : decode gen_schema "Node" nv_doc = Ok nv_node /\ scan_el gen_schema nv_doc = ([("Node", nv_node)], None).
 Proof. split; vm_compute; reflexivity. Qed.
+
+(* ---------- children of an <osm> document in any order ---------- *)
+From Verif Require Import Codec.ProofsKids Codec.ProofsContainers.
+
+Theorem osm_any_child_order : forall v,
+  wfb gen_schema "OSM" v = true ->
+  exists al kids,
+    encode1 gen_schema "OSM" v = Ok (Elem "osm" al kids (AStr []))
+    /\ forall kids' t, same_per_field gen_schema (struct_fields (d_of "OSM")) kids kids' ->
+                      decode gen_schema "OSM" (Elem "osm" al kids' t) = Ok v.
+Proof.
+  intros v Hwf. destruct containers_static as (H1 & H2 & H3 & H4 & H5 & H6).
+  exact (decode_osm_any_order gen_schema (d_of "OSM") v H1 H3 H4 Hwf).
+Qed.
+
+Definition list_eqb_xmlname (a b : list xml) : bool :=
+  Nat.eqb (List.length a) (List.length b) && forallb (fun p => String.eqb (xname (fst p)) (xname (snd p))) (combine a b).
+
+(* non-vacuity: node, way, node with an unknown element and a foreign known name in between *)
+Definition nv_osm : value := Eval vm_compute in
+  mk gen_schema "OSM" [("Nodes", VList [VPtr (Some (w_node 1)); VPtr (Some (w_node 2))]);
+                       ("Ways", VList [VPtr (Some (mk gen_schema "Way" [("ID", VInt 5)]))])].
+Definition nv_osm_kids : list xml := Eval vm_compute in
+  match encode1 gen_schema "OSM" nv_osm with Ok (Elem _ _ k _) => k | _ => [] end.
+Definition nv_osm_shuffled : list xml := Eval vm_compute in
+  match nv_osm_kids with
+  | [n1; n2; w] => [n1; Elem "zzfoo" [] [] (AStr []); w; Elem "tag" [("k", AStr [])] [] (AStr []); n2]
+  | _ => []
+  end.
+Example nv_osm_order :
+  List.length nv_osm_shuffled = 5%nat /\
+  forallb (fun f => list_eqb_xmlname (filter (fun c => key_hit gen_schema f (xname c)) nv_osm_shuffled)
+                                     (filter (fun c => key_hit gen_schema f (xname c)) nv_osm_kids))
+          (struct_fields (d_of "OSM")) = true /\
+  decode gen_schema "OSM" (Elem "osm" [] nv_osm_shuffled (AStr [])) = Ok nv_osm.
+Proof. repeat split; vm_compute; reflexivity. Qed.
